@@ -12,8 +12,17 @@ def _sig(ops, io, mo, k):
 CFG = PropCfg(
     "C01", "HopModel.Props.C01",
     [SuiteCfg("C01", stateless=True, signature=_sig, nontrivial=lambda ops, outs: True,
-              classify=lambda op, out: " ".join(op.split(" ")[1:2]) + " -> " + out, parts_thorough=8)],
-    rule="every line is one real handshake between a real transport.Client and a real transport.Server over the "
+              classify=lambda op, out: " ".join(op.split(" ")[1:2]) + " -> " + out, parts_thorough=8),
+     # server configuration -> policy: the TOML loader and NewHopServer, with real clients over loopback UDP
+     SuiteCfg("C01cfg", stateless=True, parts_thorough=4, nontrivial=lambda ops, outs: True, timeout=1500,
+              classify=lambda op, out: op.split(" ")[0] + " -> " + out)],
+    rule="suite C01cfg: a real hopserver.NewHopServer per line, configured through a TOML file read by "
+         "config.LoadServerConfigFromFile or through a ServerConfig struct, for every combination of InsecureSkipVerify / "
+         "DisableCertificateValidation / EnableAuthorizedKeys / EnableAuthgrants (absent, true, false), CA file listed or "
+         "not, a CA-issued / self-signed / foreign-root client, a grant added for its key or not; a real client connects "
+         "over loopback UDP and the outcome is compared with policyAccepts on the policy the options stand for; plus a "
+         "server with one virtual host and no fallback asked for matching / non-matching names of known and unknown type "
+         "(it must refuse or serve, and go on serving). suite C01: every line is one real handshake between a real transport.Client and a real transport.Server over the "
          "in-memory network, with dishonest (misconfigured) endpoints: server side {ok, valid chain but another DH key, "
          "other name, expired, not yet valid, wrong type, untrusted root, self-signed} x client side {ok, another key, "
          "expired, not yet valid, untrusted root, self-signed, wrong type} x server policy {none, skip, CA store, "
